@@ -43,7 +43,8 @@ theorem ssGuard_missing (cx : Ctx) (t : Nat) (sf : Rec) (w : World) (h : w.fs t 
   simp [this]
 
 theorem startSelf_own (E : Engine) (d : Defects) (cx : Ctx) (t : Nat) (sf0 : Rec) (w : World)
-    (h : w.recs t = sf0 ∨ (w.recs t = { sf0 with isGenerated := false, failed := some 0 } ∧ w.fs t = none)) :
+    (hov : sf0.isOverride = false)
+    (h : w.recs t = sf0 ∨ (w.recs t = { sf0 with isGenerated := false, isOverride := false, failed := some 0 } ∧ w.fs t = none)) :
     startSelf E d cx t sf0 w = startSelf E d cx t (w.recs t) w := by
   rcases h with h | ⟨h, hfs⟩
   · rw [h]
@@ -52,6 +53,6 @@ theorem startSelf_own (E : Engine) (d : Defects) (cx : Ctx) (t : Nat) (sf0 : Rec
     simp only [hex, Bool.false_and, Bool.false_eq_true, if_false]
     apply ssBuild_agree
     rw [h]
-    exact ⟨rfl, rfl, rfl, rfl, rfl, rfl⟩
+    exact ⟨rfl, hov, rfl, rfl, rfl, rfl⟩
 
 end RedoModel.Deps
